@@ -120,6 +120,7 @@ func (a *Act) callWithArgs(ctx *blockCtx, c *ssa.CallCommon, args []Val, fnv Val
 	if a.inlinable(callee) {
 		return a.inline(ctx, callee, args, resT, pos)
 	}
+	defer func() { a.bumpWMDefault(ctx) }()
 	g.usedDefault[key] = true
 	if debugKeys {
 		fmt.Fprintf(os.Stderr, "default-frame: %q\n", key)
@@ -331,6 +332,7 @@ func (a *Act) contractCall(ctx *blockCtx, spec *FuncSpec, key string, pnames []s
 			a.nameState(ctx, hv)
 		}
 	}
+	a.bumpWM(ctx, res, tup)
 	envPost := &Env{g: g, vars: allVars, st: post, old: pre, pkg: spec.Pkg}
 	for _, u := range spec.Uses {
 		_ = u
@@ -496,6 +498,9 @@ func (a *Act) invoke(ctx *blockCtx, c *ssa.CallCommon, args []Val, recv Val, res
 		for i := 0; i < sig.Params().Len(); i++ {
 			pn = append(pn, sig.Params().At(i).Name())
 		}
+		if len(spec.Params) == len(pn) {
+			pn = spec.Params
+		}
 		return a.contractCall(ctx, spec, key, pn, args, map[string]Val{"self": recv}, sig, resT, pos)
 	}
 	g.usedDefault[key] = true
@@ -527,6 +532,9 @@ func (a *Act) dynCall(ctx *blockCtx, c *ssa.CallCommon, args []Val, fnv Val, res
 			var pn []string
 			for i := 0; i < fs.Params().Len(); i++ {
 				pn = append(pn, fs.Params().At(i).Name())
+			}
+			if len(spec.Params) == len(pn) {
+				pn = spec.Params
 			}
 			g.oblige("nil", fmt.Sprintf("%s/nil/dyncall", a.key), ctx.reach, not("(= "+fnv.T+" 0)"), "call of nil function value", g.pos(pos), a.safetyProps())
 			return a.contractCall(ctx, spec, k, pn, args, map[string]Val{"self": fnv}, fs, resT, pos)
@@ -918,7 +926,11 @@ func (g *Gen) callMods(a *Act, c *ssa.CallCommon, set map[string]bool, depth int
 			sig := c.Signature()
 			for i := 0; i < sig.Params().Len(); i++ {
 				p := sig.Params().At(i)
-				env.vars[p.Name()] = Val{T: "dummy", S: g.w.sortOf(p.Type()), G: p.Type()}
+				n := p.Name()
+				if len(spec.Params) == sig.Params().Len() {
+					n = spec.Params[i]
+				}
+				env.vars[n] = Val{T: "dummy", S: g.w.sortOf(p.Type()), G: p.Type()}
 			}
 		}
 	}
@@ -942,4 +954,32 @@ func sortedKeys(m map[string]bool) []string {
 	}
 	sort.Strings(ks)
 	return ks
+}
+
+// bumpWM: a call may allocate; references it returns exist afterwards.
+func (a *Act) bumpWM(ctx *blockCtx, res Val, tup []Val) {
+	g := a.g
+	g.w.heapVars["$wm"] = "Int"
+	old := g.stateGet(ctx.st, "$wm")
+	n := g.fresh("wm", "Int")
+	g.fact("(>= " + n + " " + old + ")")
+	ctx.st["$wm"] = n
+	vs := tup
+	if tup == nil {
+		vs = []Val{res}
+	}
+	for _, v := range vs {
+		if v.S == "Ref" && v.T != "" {
+			g.fact("(<= " + v.T + " " + n + ")")
+		}
+	}
+}
+
+func (a *Act) bumpWMDefault(ctx *blockCtx) {
+	g := a.g
+	g.w.heapVars["$wm"] = "Int"
+	old := g.stateGet(ctx.st, "$wm")
+	n := g.fresh("wm", "Int")
+	g.fact("(>= " + n + " " + old + ")")
+	ctx.st["$wm"] = n
 }
